@@ -384,9 +384,53 @@ pub fn gt_io<E: Pairing>(name: &str) -> GroupIo<'static, PairingOutput<E>> {
     }
 }
 
+/// `msm_chunks` works through its streams in chunks of 2^20 elements: streams that cross that boundary (all but a few
+/// scalars zero, so that the sum stays cheap and has an independent expected value)
+fn chunk_boundary(rep: &mut Report, rng: &mut Rng) {
+    use ark_ec::{AffineRepr, CurveGroup};
+    use ark_ff::UniformRand;
+    type G = cfgs::shipped::bls12_381::G1Projective;
+    type A = cfgs::shipped::bls12_381::G1Affine;
+    type S = cfgs::shipped::bls12_381::Fr;
+    rep.config("bls12_381::g1 (msm_chunks across the 2^20 boundary)");
+    let n = (1usize << 20) + 5;
+    let g = A::generator();
+    let few: Vec<A> = (0..8).map(|_| (g * S::rand(rng)).into_affine()).collect();
+    let bases: Vec<A> = (0..n).map(|i| few[i % 8]).collect();
+    for extra in [0usize, 3] {
+        let mut scalars = vec![S::from(0u64); n];
+        for (k, i) in [0usize, 1, (1 << 20) - 1, 1 << 20, (1 << 20) + 1, n - 1].into_iter().enumerate() {
+            let s = S::from(3 + k as u64) + S::rand(rng);
+            scalars[i] = s;
+        }
+        // `extra` surplus bases in front: the streams are aligned at their ends
+        let mut b2: Vec<A> = (0..extra).map(|j| few[(j + 3) % 8]).collect();
+        b2.extend_from_slice(&bases);
+        // expected value with the alignment: scalar i pairs with b2[extra + i] = bases[i]
+        let mut want = G::default();
+        for (i, s) in scalars.iter().enumerate() {
+            if !ark_std::Zero::is_zero(s) {
+                want += bases[i] * *s;
+            }
+        }
+        rep.class("msm_chunks: stream longer than one 2^20 chunk");
+        rep.eval(digest(&("msm-chunk-boundary", extra)), true);
+        let d = || json!({"group": "bls12_381::g1", "bases": n + extra, "scalars": n, "non_zero_scalars_at": [0, 1, (1usize << 20) - 1, 1usize << 20, (1usize << 20) + 1, n - 1]});
+        if let Some(got) = rep.total("msm/bls12_381::g1/msm_chunks/total", d, || <G as VariableBaseMSM>::msm_chunks(&&b2[..], &&scalars[..])) {
+            if got != want {
+                rep.violation("msm/bls12_381::g1/msm_chunks/chunk-boundary".to_string(), d());
+            }
+        }
+    }
+}
+
 pub fn items(args: &Args) -> Vec<Item> {
     use cfgs::shipped::*;
     let mut v: Vec<Item> = vec![];
+    v.push(Item::new("c05/msm_chunks-chunk-boundary", |rep, rng, _| {
+        rep.require("msm_chunks: stream longer than one 2^20 chunk");
+        chunk_boundary(rep, rng)
+    }));
     let quick = args.quick();
     let lens_small: Vec<usize> = vec![0, 1, 2, 3, 31, 32, 33, 63, 64, 65, 127, 128, 129];
     let lens_big: Vec<usize> = if quick { vec![1000] } else { vec![1000, 4096, 16384] };
